@@ -106,6 +106,15 @@ def get_struct(src, name):
     return src[m.start():end]
 
 
+def get_enum(src, name):
+    m = re.search(r"(?m)^[ \t]*(?:pub(?:\([^)]*\))?\s+)?enum\s+%s\s*\{" % re.escape(name), src)
+    if not m:
+        raise LostAnchor("enum %s not found" % name)
+    b = src.find("{", m.start())
+    end = match_brace(src, b)
+    return src[m.start():end]
+
+
 def get_consts(src):
     return re.findall(r"(?m)^(?:pub\s+)?const\s+[A-Z0-9_]+\s*:\s*[^=]+=\s*[^;]+;", src)
 
